@@ -1,5 +1,5 @@
 import Capella.Lemmas.Decl
-import Capella.Lemmas.DeclCE
+import Capella.Lemmas.DeclCE2
 
 /-!
 # C12 — declarative modelling resolves promises independently of declaration order
@@ -17,24 +17,24 @@ open Capella.Decl
 `measure` transitions, where `measure = D·(T+1) + Q` (`D` pending `promise_id`s, `T` mass of
 agenda+queue+deferred, `Q` mass of agenda+queue): `apply` is the loop's result followed by the
 `UnfulfilledPromisesError` check, never the model's out-of-fuel value. -/
-theorem apply_terminates (dflt : List (Str × Str)) (g : Graph) (doc : List Instr) :
-    ∃ r, run dflt ((init g doc).measure + 1) (init g doc) = some r ∧ apply dflt g doc = r.bind finish := by
-  have h := run_measure_some dflt ((init g doc).measure + 1) (init g doc) (by omega)
-  cases hr : run dflt ((init g doc).measure + 1) (init g doc) with
+theorem apply_terminates (mm : MM) (g : Graph) (doc : List Instr) :
+    ∃ r, run mm ((init g doc).measure + 1) (init g doc) = some r ∧ apply mm g doc = r.bind finish := by
+  have h := run_measure_some mm ((init g doc).measure + 1) (init g doc) (by omega)
+  cases hr : run mm ((init g doc).measure + 1) (init g doc) with
   | none => simp [hr] at h
   | some r => exact ⟨r, rfl, by simp [apply, hr]⟩
 
 /-- Every transition strictly lowers the measure (the loop cannot cycle, whatever is deferred and
 re-queued). -/
-theorem step_lowers_measure {dflt : List (Str × Str)} {s s' : State} (h : step dflt s = .ok (some s')) :
+theorem step_lowers_measure {mm : MM} {s s' : State} (h : step mm s = .ok (some s')) :
     s'.measure < s.measure := step_measure h
 
 /-- Extra fuel never changes the outcome. -/
-theorem fuel_irrelevant (dflt : List (Str × Str)) (n : Nat) (s : State) (r) (h : run dflt n s = some r) (k : Nat) :
-    run dflt (n + k) s = some r := by
+theorem fuel_irrelevant (mm : MM) (n : Nat) (s : State) (r) (h : run mm n s = some r) (k : Nat) :
+    run mm (n + k) s = some r := by
   induction k with
   | zero => exact h
-  | succ k ih => exact run_mono dflt (n + k) s r ih
+  | succ k ih => exact run_mono mm (n + k) s r ih
 
 /-- `!promise p` resolves to whatever `promises[p]` holds and to nothing else; when `p` is not bound the
 private signal carries exactly `p` (so the entry is filed under `p`, not dropped). -/
@@ -52,8 +52,8 @@ theorem duplicate_binding_raises (s : State) (p : Str) (i j : Id) (h : s.ps.look
 
 /-- Along every run (any document): a binding, once made, is never changed or removed, and no id is
 bound twice. -/
-theorem bindings_never_change {dflt : List (Str × Str)} (n : Nat) (s r : State)
-    (h : run dflt n s = some (.ok r)) :
+theorem bindings_never_change {mm : MM} (n : Nat) (s r : State)
+    (h : run mm n s = some (.ok r)) :
     (∀ p i, s.ps.lookup p = some i → r.ps.lookup p = some i) ∧
     ((s.ps.map Prod.fst).Nodup → (r.ps.map Prod.fst).Nodup) := run_ps n s r h
 
@@ -69,33 +69,38 @@ theorem leftover_deferred_raises (s : State) (p : Str) (a : Action) (rest : List
 `DocCE st pm doc`: every instruction has only `create`/`extend`, its parent and every reference entry
 of a list are plain `!promise`/`!uuid` values (attribute values may be anything, including `!find`);
 with `st = True` additionally `pm` sends every declared `promise_id` to the id of its object description.
-`docN dflt pm F doc` sums a weight `F` over the effects the document describes (objects, list
-memberships, promise bindings, promise uses); `ind e` is the indicator of one effect. -/
+`docN sc pm F doc` sums a weight `F` over the effects the document describes (objects, list
+memberships, promise bindings, promise uses); `ind e` is the indicator of one effect; `sc` is the class
+an object gets as a function of list name and `_type` hint (irrelevant for weights that ignore classes).
+The theorems about promises hold for **every** metamodel `mm` (generated table or permissive). -/
+
+/-- placeholder class function for weights that ignore classes -/
+def sc0 : Str → Option Str → Str := fun a _ => a
 
 /-- create/extend documents (structure only) -/
 def PlainCE (doc : List Instr) : Prop := DocCE False (fun _ => none) doc
 
 /-- number of object descriptions with id `i` that carry `promise_id: p` -/
-def declCount (dflt : List (Str × Str)) (doc : List Instr) (p : Str) (i : Id) : Nat :=
-  docN dflt (fun _ => none) (ind (.bind p i)) doc
+def declCount (doc : List Instr) (p : Str) (i : Id) : Nat :=
+  docN sc0 (fun _ => none) (ind (.bind p i)) doc
 
 /-- number of object descriptions that carry `promise_id: p` -/
-def declTotal (dflt : List (Str × Str)) (doc : List Instr) (p : Str) : Nat :=
-  docN dflt (fun _ => none) (fun e => match e with | .bind q _ => if q = p then 1 else 0 | _ => 0) doc
+def declTotal (doc : List Instr) (p : Str) : Nat :=
+  docN sc0 (fun _ => none) (fun e => match e with | .bind q _ => if q = p then 1 else 0 | _ => 0) doc
 
 /-- number of places that reference `!promise p` (parents, list entries, attribute values, find keys) -/
-def useCount (dflt : List (Str × Str)) (doc : List Instr) (p : Str) : Nat :=
-  docN dflt (fun _ => none) (ind (.use p)) doc
+def useCount (doc : List Instr) (p : Str) : Nat :=
+  docN sc0 (fun _ => none) (ind (.use p)) doc
 
 /-- **Every promise ends up pointing at the object that declared it**: the mapping returned by a
 successful `apply` contains the pair `(p, i)` exactly as often as the document contains an object
 description with id `i` and `promise_id: p` — nothing else is bound, nothing declared is missing. -/
-theorem promise_points_to_declarer {dflt g doc g' ps'} (hdoc : PlainCE doc)
-    (h : apply dflt g doc = .ok (g', ps')) (p : Str) (i : Id) :
-    ps'.count (p, i) = declCount dflt doc p i := by
+theorem promise_points_to_declarer {mm g doc g' ps'} (hdoc : PlainCE doc)
+    (h : apply mm g doc = .ok (g', ps')) (p : Str) (i : Id) :
+    ps'.count (p, i) = declCount doc p i := by
   have hdoc' : DocCE False (fun _ => none) doc := hdoc
-  have := apply_ce hdoc' h (ind (.bind p i)) (Or.inr (by intro o a m; simp [ind]))
-    (quiet_of_not_use _ (by intro q; simp))
+  have := apply_ce (sc := sc0) hdoc' h (ind (.bind p i)) (Or.inr (by intro o a m; simp [ind]))
+    (Or.inr (by intro j c c'; simp [ind])) (quiet_of_not_use _ (by intro q; simp))
   rw [resN_bind, resN_bind] at this
   simpa [declCount] using this
 
@@ -112,13 +117,13 @@ theorem resN_key (g : Graph) (ps : Promises) (p : Str) :
 
 /-- **A promise id declared twice makes the application fail**: a successful `apply` means every
 promise id is carried by at most one object description. -/
-theorem duplicate_promise_raises {dflt g doc g' ps'} (hdoc : PlainCE doc)
-    (h : apply dflt g doc = .ok (g', ps')) (p : Str) : declTotal dflt doc p ≤ 1 := by
+theorem duplicate_promise_raises {mm g doc g' ps'} (hdoc : PlainCE doc)
+    (h : apply mm g doc = .ok (g', ps')) (p : Str) : declTotal doc p ≤ 1 := by
   have hdoc' : DocCE False (fun _ => none) doc := hdoc
-  have hc := apply_ce hdoc' h (fun e => match e with | .bind q _ => if q = p then 1 else 0 | _ => 0)
-    (Or.inr (by intro o a m; rfl)) (by intro q j _; rfl)
+  have hc := apply_ce (sc := sc0) hdoc' h (fun e => match e with | .bind q _ => if q = p then 1 else 0 | _ => 0)
+    (Or.inr (by intro o a m; rfl)) (Or.inr (by intro j c c'; rfl)) (by intro q j _; rfl)
   rw [resN_key, resN_key] at hc
-  obtain ⟨r, hr, ha⟩ := apply_terminates dflt g doc
+  obtain ⟨r, hr, ha⟩ := apply_terminates mm g doc
   rw [ha] at h
   cases r with
   | error e => simp [Except.bind] at h
@@ -135,8 +140,8 @@ theorem duplicate_promise_raises {dflt g doc g' ps'} (hdoc : PlainCE doc)
 /-- **A reference to a promise nobody declares makes the application fail**: after a successful `apply`
 every promise id the document references anywhere is bound (hence, by `promise_points_to_declarer`,
 declared). -/
-theorem unfulfilled_raises {dflt g doc g' ps'} (hdoc : PlainCE doc)
-    (h : apply dflt g doc = .ok (g', ps')) (p : Str) (hu : 0 < useCount dflt doc p) :
+theorem unfulfilled_raises {mm g doc g' ps'} (hdoc : PlainCE doc)
+    (h : apply mm g doc = .ok (g', ps')) (p : Str) (hu : 0 < useCount doc p) :
     ∃ i, ps'.lookup p = some i := by
   cases hl : ps'.lookup p with
   | some i => exact ⟨i, rfl⟩
@@ -149,7 +154,8 @@ theorem unfulfilled_raises {dflt g doc g' ps'} (hdoc : PlainCE doc)
       split
       · rename_i he; cases he; rw [hl] at hj; cases hj
       · rfl
-    have := apply_ce hdoc' h (ind (.use p)) (Or.inr (by intro o a m; simp [ind])) hq
+    have := apply_ce (sc := sc0) hdoc' h (ind (.use p)) (Or.inr (by intro o a m; simp [ind]))
+      (Or.inr (by intro j c c'; simp [ind])) hq
     simp [resN, ind, sumBy_zero, useCount] at this hu
     omega
 
@@ -165,6 +171,7 @@ mutual
 def itemSrcs : Item → List (Id × Str)
   | .obj nid _ _ _ kids => kidsSrcs nid kids
   | .ref _ => []
+  | .str _ _ => []
 def kidsSrcs (nid : Id) : List (Str × List Item) → List (Id × Str)
   | [] => []
   | (a, l) :: t => (nid, a) :: (itemsSrcs l ++ kidsSrcs nid t)
@@ -186,7 +193,7 @@ is (`C12_full_fails`). -/
 def C12_full : Prop :=
   ∀ (dflt : List (Str × Str)) (g : Graph) (pm : Str → Option Id) (doc doc' : List Instr) (r r' : Graph × Promises),
     DocCE True pm doc → NoSharedList pm doc → doc.Perm doc' →
-    apply dflt g doc = .ok r → apply dflt g doc' = .ok r' → Same r r'
+    apply (MM.free dflt) g doc = .ok r → apply (MM.free dflt) g doc' = .ok r' → Same r r'
 
 def s (x : String) : Str := x.toList
 
@@ -212,8 +219,8 @@ def classesOf (r : Except Err (Graph × Promises)) : Option (List Id) :=
   | .error _ => none
 
 theorem witness_orders :
-    classesOf (apply [] witnessGraph witness) = some [11, 10] ∧
-    classesOf (apply [] witnessGraph witness.reverse) = some [10, 11] := by
+    classesOf (apply (MM.free []) witnessGraph witness) = some [11, 10] ∧
+    classesOf (apply (MM.free []) witnessGraph witness.reverse) = some [10, 11] := by
   decide
 
 
@@ -221,7 +228,7 @@ theorem witness_ce : DocCE True witnessPm witness := by
   intro i hi
   simp only [witness, List.mem_cons, List.mem_nil_iff, or_false] at hi
   rcases hi with rfl | rfl <;>
-    simp [Instr.ce, kidsCe, itemsCe, Item.ce, pidOK, witnessPm]
+    simp [Instr.all, kidsAll, itemsAll, Item.all, ceHead, ceQ, pidOK, witnessPm]
 
 theorem witness_noShared : NoSharedList witnessPm witness := by
   unfold NoSharedList; decide
@@ -234,10 +241,10 @@ known finding `apply|sibling-order-depends-on-declaration-order|scalar-promise`.
 theorem C12_full_fails : ¬ C12_full := by
   intro h
   have hw := witness_orders
-  cases h1 : apply [] witnessGraph witness with
+  cases h1 : apply (MM.free []) witnessGraph witness with
   | error e => simp [h1, classesOf] at hw
   | ok r =>
-    cases h2 : apply [] witnessGraph witness.reverse with
+    cases h2 : apply (MM.free []) witnessGraph witness.reverse with
     | error e => simp [h2, classesOf] at hw
     | ok r' =>
       have hs := h [] witnessGraph witnessPm witness witness.reverse r r' witness_ce witness_noShared
@@ -250,10 +257,12 @@ theorem C12_full_fails : ¬ C12_full := by
 /-- **Order independence, as far as the code has it** (`C12_partial`): for create/extend documents whose
 promise ids are consistently declared, any two orders of the instructions that both succeed yield the
 same objects (ids and classes), the same members in every list **up to their order**, and the same
-promise bindings. No hypothesis about shared lists is needed for this form. -/
-theorem C12_partial {dflt : List (Str × Str)} {g : Graph} {pm : Str → Option Id} {doc doc' : List Instr}
-    {r r' : Graph × Promises} (hdoc : DocCE True pm doc) (hp : doc.Perm doc')
-    (h : apply dflt g doc = .ok r) (h' : apply dflt g doc' = .ok r') :
+promise bindings. No hypothesis about shared lists is needed for this form. The metamodel may be any in
+which the class of a new object is a function of list name and type hint (`StaticCls`; the permissive
+metamodels `MM.free dflt` are such: `C12_partial_free`). -/
+theorem C12_partial {mm : MM} {sc : Str → Option Str → Str} {g : Graph} {pm : Str → Option Id} {doc doc' : List Instr}
+    {r r' : Graph × Promises} (hsc : StaticCls mm sc) (hdoc : DocCE True pm doc) (hp : doc.Perm doc')
+    (h : apply mm g doc = .ok r) (h' : apply mm g doc' = .ok r') :
     r.1.objs.Perm r'.1.objs ∧ (∀ o a, (r.1.members o a).Perm (r'.1.members o a)) ∧
     (∀ p, r.2.lookup p = r'.2.lookup p) := by
   obtain ⟨g1, ps1⟩ := r
@@ -261,8 +270,8 @@ theorem C12_partial {dflt : List (Str × Str)} {g : Graph} {pm : Str → Option 
   have hdoc' : DocCE True pm doc' := fun i hi => hdoc i (hp.mem_iff.mpr hi)
   have key : ∀ e, (∀ p, e ≠ .use p) → resN (ind e) g1 ps1 = resN (ind e) g2 ps2 := by
     intro e he
-    have a := apply_ce hdoc h (ind e) (Or.inl trivial) (quiet_of_not_use _ he)
-    have b := apply_ce hdoc' h' (ind e) (Or.inl trivial) (quiet_of_not_use _ he)
+    have a := apply_ce (sc := sc) hdoc h (ind e) (Or.inl trivial) (Or.inl hsc) (quiet_of_not_use _ he)
+    have b := apply_ce (sc := sc) hdoc' h' (ind e) (Or.inl trivial) (Or.inl hsc) (quiet_of_not_use _ he)
     rw [a, b, docN_perm hp]
   have hobjs : g1.objs.Perm g2.objs := by
     rw [List.perm_iff_count]
@@ -282,22 +291,65 @@ theorem C12_partial {dflt : List (Str × Str)} {g : Graph} {pm : Str → Option 
   exact ⟨hobjs, fun o a => members_perm hedges o a,
     fun p => lookup_of_perm hps (apply_ok_nodup h) (apply_ok_nodup h') p⟩
 
+/-- `C12_partial` for the permissive metamodels (the statement of the earlier rounds, unchanged) -/
+theorem C12_partial_free {dflt : List (Str × Str)} {g : Graph} {pm : Str → Option Id} {doc doc' : List Instr}
+    {r r' : Graph × Promises} (hdoc : DocCE True pm doc) (hp : doc.Perm doc')
+    (h : apply (MM.free dflt) g doc = .ok r) (h' : apply (MM.free dflt) g doc' = .ok r') :
+    r.1.objs.Perm r'.1.objs ∧ (∀ o a, (r.1.members o a).Perm (r'.1.members o a)) ∧
+    (∀ p, r.2.lookup p = r'.2.lookup p) :=
+  C12_partial (staticCls_free dflt) hdoc hp h h'
+
+/-- … and for **every** metamodel (generated table included), where the class of a new object may depend
+on the class of its parent: the same object ids, the same members of every list up to order, the same
+promise bindings. -/
+theorem C12_partial_any {mm : MM} {g : Graph} {pm : Str → Option Id} {doc doc' : List Instr}
+    {r r' : Graph × Promises} (hdoc : DocCE True pm doc) (hp : doc.Perm doc')
+    (h : apply mm g doc = .ok r) (h' : apply mm g doc' = .ok r') :
+    (r.1.objs.map Prod.fst).Perm (r'.1.objs.map Prod.fst) ∧ (∀ o a, (r.1.members o a).Perm (r'.1.members o a)) ∧
+    (∀ p, r.2.lookup p = r'.2.lookup p) := by
+  obtain ⟨g1, ps1⟩ := r
+  obtain ⟨g2, ps2⟩ := r'
+  have hdoc' : DocCE True pm doc' := fun i hi => hdoc i (hp.mem_iff.mpr hi)
+  have key : ∀ F, ClsBlind F → (∀ ps, Quiet F ps) → resN F g1 ps1 = resN F g2 ps2 := by
+    intro F hF hq
+    have a := apply_ce (sc := sc0) hdoc h F (Or.inl trivial) (Or.inr hF) (hq _)
+    have b := apply_ce (sc := sc0) hdoc' h' F (Or.inl trivial) (Or.inr hF) (hq _)
+    rw [a, b, docN_perm hp]
+  have hedges : g1.edges.Perm g2.edges := by
+    rw [List.perm_iff_count]
+    intro ⟨o, a, m⟩
+    have := key (ind (.edge o a m)) (by intro j c c'; simp [ind]) (fun ps => quiet_of_not_use ps (by intro p; simp))
+    rwa [resN_edge, resN_edge] at this
+  have hps : ps1.Perm ps2 := by
+    rw [List.perm_iff_count]
+    intro ⟨p, i⟩
+    have := key (ind (.bind p i)) (by intro j c c'; simp [ind]) (fun ps => quiet_of_not_use ps (by intro q; simp))
+    rwa [resN_bind, resN_bind] at this
+  have hids : (g1.objs.map Prod.fst).Perm (g2.objs.map Prod.fst) := by
+    rw [List.perm_iff_count]
+    intro i
+    have := key (fun e => match e with | .obj j _ => if j = i then 1 else 0 | _ => 0)
+      (by intro j c c'; rfl) (fun ps => by intro p j _; rfl)
+    simpa [resN, sumBy_zero, sumBy_idCount] using this
+  exact ⟨hids, fun o a => members_perm hedges o a,
+    fun p => lookup_of_perm hps (apply_ok_nodup h) (apply_ok_nodup h') p⟩
+
 /-! ## non-vacuity -/
 
 /-- the witness is a create/extend document, both orders succeed, `K` is bound to its declarer (13) -/
 example : PlainCE witness := by
   intro i hi
   simp only [witness, List.mem_cons, List.mem_nil_iff, or_false] at hi
-  rcases hi with rfl | rfl <;> simp [Instr.ce, kidsCe, itemsCe, Item.ce, pidOK]
+  rcases hi with rfl | rfl <;> simp [Instr.all, kidsAll, itemsAll, Item.all, ceHead, ceQ, pidOK]
 
-example : (match apply [] witnessGraph witness with | .ok r => some r.2 | .error _ => none) = some [(s "K", 13)] := by
+example : (match apply (MM.free []) witnessGraph witness with | .ok r => some r.2 | .error _ => none) = some [(s "K", 13)] := by
   decide
-example : declCount [] witness (s "K") 13 = 1 ∧ declTotal [] witness (s "K") = 1 ∧ useCount [] witness (s "K") = 1 := by
+example : declCount witness (s "K") 13 = 1 ∧ declTotal witness (s "K") = 1 ∧ useCount witness (s "K") = 1 := by
   decide
 /-- a dangling reference raises `UnfulfilledPromisesError`, a duplicated id raises "defined twice" -/
-example : (match apply [] witnessGraph [witness.head!] with | .error e => some e | .ok _ => none)
+example : (match apply (MM.free []) witnessGraph [witness.head!] with | .error e => some e | .ok _ => none)
     = some (.unfulfilled [s "K"]) := by decide
-example : (match apply [] witnessGraph (witness ++ [witness.getLast!]) with | .error e => some e | .ok _ => none)
+example : (match apply (MM.free []) witnessGraph (witness ++ [witness.getLast!]) with | .error e => some e | .ok _ => none)
     = some (.dupPromise (s "K")) := by decide
 /-- the measure of the witness and a transition that lowers it -/
 example : (init witnessGraph witness).measure = 23 := by decide
